@@ -48,9 +48,8 @@ impl BoxedMontyParams {
 
         // `R mod modulus` where `R = 2^BITS`.
         // Represents 1 in Montgomery form.
-        let one = BoxedUint::max(bits_precision)
-            .rem(modulus.as_nz_ref())
-            .wrapping_add(&BoxedUint::one());
+        // Computed as `(2^BITS - modulus) mod modulus`, which is also correct (zero) for `modulus = 1`.
+        let one = modulus.as_ref().wrapping_neg().rem(modulus.as_nz_ref());
 
         // `R^2 mod modulus`, used to convert integers to Montgomery form.
         let r2 = one
@@ -91,9 +90,11 @@ impl BoxedMontyParams {
 
         // `R mod modulus` where `R = 2^BITS`.
         // Represents 1 in Montgomery form.
-        let one = BoxedUint::max(bits_precision)
-            .rem_vartime(modulus.as_nz_ref())
-            .wrapping_add(&BoxedUint::one());
+        // Computed as `(2^BITS - modulus) mod modulus`, which is also correct (zero) for `modulus = 1`.
+        let one = modulus
+            .as_ref()
+            .wrapping_neg()
+            .rem_vartime(modulus.as_nz_ref());
 
         // `R^2 mod modulus`, used to convert integers to Montgomery form.
         let r2 = one
